@@ -28,6 +28,7 @@ RULE = ("table with TSV-safe IDs (no tab / line boundary, no leading '#', no "
         " numeric-looking / spaced / non-ASCII ID; distinct = hash")
 BUDGET = {"quick": {"shards": 16, "examples": 250},
           "thorough": {"shards": 16, "examples": 6000}}
+FUZZ_SECONDS = 120   # thorough tier: atheris campaign on the same property
 ASSUMPTIONS = ["the text handed to the importer is exactly what the exporter "
                "produced (optionally with one final newline when stored in a "
                "file)"]
